@@ -30,6 +30,8 @@ type File struct {
 	// (run indices Idx-Prefix .. Idx-1, regenerated from VerifSeed) are
 	// executed in the same process.
 	Prefix int `json:"prefix_runs,omitempty"`
+	// Depth is the bound-scaling factor (kernel.Depth) the run was made with.
+	Depth int `json:"depth,omitempty"`
 	// Reproduced is false when the violation was observed during the batch
 	// but could not be reproduced from this file in fresh processes.
 	Reproduced *bool `json:"reproduced,omitempty"`
